@@ -28,3 +28,26 @@ void h_pnum_long_negexp(void) {
     VWITNESS("tiny");
   }
 }
+
+/* ---- very long mantissas (as<T>() on a string may see any length): '1' followed by NZ zeros, then "e-" and two symbolic
+ * exponent digits. The value is 10^(NZ - E); the pair handed to the scaling must have that magnitude: the bookkeeping of
+ * dropped digits must not wrap for hundreds of digits. (The digit string is concrete so that the scanner's position stays
+ * concrete; the symbolic part is the exponent.) */
+#ifndef NZ
+#define NZ 154
+#endif
+void h_pnum_many_digits(void) {
+  uint8_t s[NZ + 8]; unsigned pos = 0;
+  s[pos++] = '1'; for (unsigned i = 0; i < NZ; i++) s[pos++] = '0';
+  s[pos++] = 'e'; s[pos++] = '-';
+  unsigned E = 0; for (unsigned i = 0; i < 2; i++) { uint8_t c = vin_u8(); VASSUME(c >= '0' && c <= '9'); s[pos++] = c; E = E * 10 + (c - '0'); }
+  s[pos] = 0;
+  uint64_t u = 0, i64 = 0; double d = 0;
+  int k = (int)w_parse_kind(s, &u, &i64, &d); VOBS(k); VOBS(g_mf_calls);
+  VASSERT(k == 1 || k == 4, "floating kind");
+  int magnitude = (int)NZ - (int)E;
+  VASSERT(g_mf_calls >= 1, "a value between 1e55 and 1e300 is scaled");
+  uint64_t m = (uint64_t)g_mf_m; int dm = 0; uint64_t p = 1; for (int j = 0; j < 19; j++) { if (m >= p) dm = j + 1; p *= 10; }
+  VASSERT((double)m == g_mf_m && dm - 1 + g_mf_e == magnitude, "digits(mantissa) - 1 + exponent == decimal magnitude of the literal, also after hundreds of dropped digits");
+  VWITNESS("any");
+}
